@@ -4,7 +4,7 @@ From RecordUpdate Require Import RecordSet.
 From SasLexer Require Import Gen.TokenType Gen.ErrorKind Gen.Channel Gen.Unicode Model.Base Model.Core
      Model.Helpers Model.Numeric Model.Lexer1 Model.Lexer2 Model.Lexer3 Spec.RefLex
      Proofs.Generic Proofs.LexGeneric Proofs.Bom Proofs.SemiProgram Proofs.SemiCompose Proofs.RefLexProofs
-     Proofs.OcBase Proofs.OcSym Proofs.OcScan Proofs.OcNum Proofs.OcIdent Proofs.OcData.
+     Proofs.HexString Proofs.OcBase Proofs.OcSym Proofs.OcScan Proofs.OcNum Proofs.OcIdent Proofs.OcData.
 Import ListNotations RecordSetNotations.
 Open Scope N_scope.
 
@@ -220,6 +220,21 @@ Proof.
       * split; [exact R2|]. split; [exact R3|exact R4].
 Qed.
 
+Lemma sq_P q : forall m l X ad pend P k, (List.length l <= m)%nat ->
+  exists W, q_P (st_sq q X l ad pend P k) = P ++ W /\ (q_ad (st_sq q X l ad pend P k) = ad \/ In q W).
+Proof.
+  induction m as [|m IH]; intros l X ad pend P k Hl.
+  - destruct l; [|cbn in Hl; lia]. exists []. cbn. rewrite app_nil_r. auto.
+  - destruct l as [|x r]; [exists []; cbn; rewrite app_nil_r; auto|]. cbn [List.length] in Hl. cbn [st_sq].
+    destruct (x =? q) eqn:Ex.
+    + destruct r as [|y r']; [exists []; cbn; rewrite app_nil_r; auto|].
+      destruct (y =? q) eqn:Ey; [|exists []; cbn; rewrite app_nil_r; auto].
+      match goal with |- context [st_sq q ?X' r' ?a ?p ?P' ?k'] => destruct (IH r' X' a p P' k' ltac:(cbn [List.length] in Hl; lia)) as (W & HW & _) end.
+      exists ((pend ++ [x; y]) ++ W). split; [rewrite HW, <- app_assoc; reflexivity|].
+      right. apply N.eqb_eq in Ex. subst x. apply in_or_app. left. apply in_or_app. right. left. reflexivity.
+    + apply (IH r (ws1 X x r) ad (pend ++ [x]) P (k + 1)). lia.
+Qed.
+
 (** ** the literal suffix *)
 Definition is_cc (a b : char) (c : char) : bool := (c =? a) || (c =? b).
 
@@ -380,5 +395,402 @@ Section Str.
     - change ((s_iters E, s_aborted E, s_loop_detected E) = (s_iters s, s_aborted s, s_loop_detected s)).
       rewrite (ne_iters _ _ Ne), (ne_ab _ _ Ne), (ne_ld _ _ Ne).
       change ((s_iters Xs, s_aborted Xs, s_loop_detected Xs) = (s_iters s, s_aborted s, s_loop_detected s)). exact C5.
+  Qed.
+
+  Lemma blen_zero_nil (l : list char) : blen l = 0 -> l = [].
+  Proof. destruct l as [|c r]; [reflexivity|]. cbn [blen]. pose proof (utf8_len_pos c). lia. Qed.
+
+  (** [resolve_string_literal_payload] (no extra escapes flag): nothing when no escape was seen,
+      otherwise the pending section is appended and the payload spans everything appended *)
+  Lemma run_resolve_payload s0 X ad tn en rr P pend post te :
+    s_srclen s0 = blen (s_src s0) ->
+    MidQ s0 X ad tn en rr -> s_src s0 = P ++ pend ++ post ->
+    match te with Some b => b = blen P + blen pend | None => cur_byte X = blen P + blen pend end ->
+    run false (resolve_string_literal_payload (w_litlen (s_buf s0)) (w_litlen (s_buf s0) + blen ad) (blen P) te false) X =
+    if is_nil ad then Done PNone X
+    else Done (PStr (w_litlen (s_buf s0)) (w_litlen (s_buf s0) + blen (ad ++ pend))) (st_addlit X pend).
+  Proof.
+    intros Hlen HM Hsrc Hte. unfold resolve_string_literal_payload, ret.
+    destruct ad as [|a0 ad'].
+    - cbn [blen is_nil]. rewrite N.add_0_r, N.eqb_refl. reflexivity.
+    - cbn [is_nil]. destruct (N.eqb_spec (w_litlen (s_buf s0)) (w_litlen (s_buf s0) + blen (a0 :: ad'))) as [E|_].
+      { cbn [blen] in E. pose proof (utf8_len_pos a0). lia. }
+      cbn [andb negb bindP do run].
+      destruct (cfgq_src s0 X (mq_cfg _ _ _ _ _ _ HM)) as [Hs Hsl].
+      assert (Hslice : forall b, b = blen P + blen pend -> src_slice X (blen P) b = Some pend).
+      { intros b ->. apply (src_slice_spec X P pend post). rewrite Hs. exact Hsrc. }
+      destruct te as [b|].
+      + rewrite (ex_addlit_src X (blen P) b pend (Hslice b Hte)). cbn [run].
+        rewrite (mq_litlen _ _ _ _ _ _ HM). rewrite blen_app. f_equal. f_equal. lia.
+      + rewrite (ex_addlit_src_cur X (blen P) pend (Hslice _ Hte)). cbn [run].
+        rewrite (mq_litlen _ _ _ _ _ _ HM). rewrite blen_app. f_equal. f_equal. lia.
+  Qed.
+
+  (** ** single-quoted literals *)
+  Lemma lexeme_squote r pos rs :
+    lexeme (c_squote :: r) pos rs =
+    let l := c_squote :: r in
+    let adv (n : N) : N := pos + blen (firstn (N.to_nat n) l) in
+    let set p ty (s : rstate) := mkRstate p (Some ty) (rs_lit s) (rs_litlen s) in
+    let '(n, closed, val, esc) := scan_quoted c_squote r 1 [] false in
+    if negb closed then
+      let '(st', pl) := if esc then push_lit rs val else (rs, PNone) in
+      ([mkRtok T_StringLiteral CH_DEFAULT pos pl], [mkRerr E_UnterminatedStringLiteral (adv n)], n, set true T_StringLiteral st')
+    else
+      let after := skipn_N (N.to_nat n) l in
+      let '(ty, extra) := suffix_of after in
+      let total := n + extra in
+      let hexv := if tt_eqb ty T_HexStringLiteral
+                  then match parse_sas_hex_string (firstn (N.to_nat total) l) with inl v => Some (inl v) | inr e => Some (inr e) end
+                  else None in
+      let '(st', pl, errs) :=
+          match hexv with
+          | Some (inl v) => let '(s', p) := push_lit rs v in (s', p, [])
+          | Some (inr e) => let '(s', p) := if esc then push_lit rs val else (rs, PNone) in (s', p, [mkRerr e (adv total)])
+          | None => let '(s', p) := if esc then push_lit rs val else (rs, PNone) in (s', p, [])
+          end in
+      ([mkRtok ty CH_DEFAULT pos pl], errs, total, set true ty st').
+  Proof. unfold lexeme. close_tests. reflexivity. Qed.
+
+  Lemma default_to_squote s : s_modes s = [MDefault] -> lines_pos s ->
+    run false (lex_token F msep c_squote) s = run false (lex_single_quoted_str F ;; set_pending_stat true) (st_start s).
+  Proof. intros Hm Hl. open_default Hm Hl. close_tests. reflexivity. Qed.
+
+  (** the common setup: the state after the opening quote and the scan *)
+  Lemma squote_setup s rs r : OC text s rs -> c_rest (s_cur s) = c_squote :: r -> (List.length (c_squote :: r) < F)%nat ->
+    let s0 := st_start s in
+    let Xa := st_adv s0 c_squote r in
+    exists pre, text = pre ++ c_squote :: r /\ s_src s0 = text /\ s_srclen s0 = blen (s_src s0) /\ cur_byte s = blen pre /\
+      MidQ s0 Xa [] [] [] r /\
+      let R := st_sq c_squote Xa r [] [] (pre ++ [c_squote]) 0 in
+      run false (squote_loop F (w_litlen (s_buf s0)) (w_litlen (s_buf s0)) (cur_byte Xa)) Xa =
+        Done (q_closed R, w_litlen (s_buf s0), w_litlen (s_buf s0) + blen (q_ad R), blen (q_P R)) (q_st R) /\
+      MidQ s0 (q_st R) (q_ad R) [] [] (skipn_N (N.to_nat (q_k R)) r) /\
+      text = q_P R ++ q_pend R ++ (if q_closed R then [c_squote] else []) ++ skipn_N (N.to_nat (q_k R)) r /\
+      (q_closed R = false -> skipn_N (N.to_nat (q_k R)) r = []) /\
+      scan_quoted c_squote r 1 [] false = (1 + q_k R, q_closed R, q_ad R ++ q_pend R, negb (is_nil (q_ad R))).
+  Proof.
+    intros HOC Hr Hf s0 Xa.
+    pose proof (OC_start text s rs HOC) as HOC0. fold s0 in HOC0.
+    destruct (ip_cur _ _ (oc_inv _ _ _ HOC)) as (pre & Epre & _ & _). rewrite Hr in Epre.
+    assert (Hsrc0 : s_src s0 = text) by exact (ip_src _ _ (oc_inv _ _ _ HOC)).
+    assert (Hlen0 : s_srclen s0 = blen (s_src s0)) by (rewrite Hsrc0; exact (ip_srclen _ _ (oc_inv _ _ _ HOC))).
+    assert (Hcb : cur_byte s = blen pre).
+    { pose proof (cur_byte_rest text s (oc_inv _ _ _ HOC)) as B. rewrite Hr in B. pose proof (f_equal blen Epre) as E. rewrite blen_app in E. lia. }
+    pose proof (MidQ_init s rs HOC) as M0. rewrite Hr in M0. fold s0 in M0.
+    pose proof (MidQ_adv _ _ _ _ _ _ _ M0) as Ma. fold Xa in Ma.
+    exists pre. split; [exact Epre|]. split; [exact Hsrc0|]. split; [exact Hlen0|]. split; [exact Hcb|]. split; [exact Ma|].
+    assert (Hsrc : s_src s0 = (pre ++ [c_squote]) ++ [] ++ r) by (rewrite Hsrc0, Epre, <- app_assoc; reflexivity).
+    assert (Hcba : cur_byte Xa = blen (pre ++ [c_squote])).
+    { rewrite (MidQ_cur_byte _ _ _ _ _ _ Ma). rewrite Hlen0, Hsrc. rewrite !blen_app. cbn [blen]. lia. }
+    destruct (sq_run s0 Hlen0 (List.length r) r Xa [] [] (pre ++ [c_squote]) 0 F (w_litlen (s_buf s0)) (cur_byte Xa)
+                     (le_n _) ltac:(cbn [List.length] in Hf; lia) Ma Hsrc ltac:(cbn [blen]; lia) Hcba) as (R1 & R2 & R3 & R4).
+    cbv zeta in *. rewrite N.sub_0_r in *. rewrite Hsrc0 in R3.
+    split; [exact R1|]. split; [exact R2|]. split; [exact R3|]. split; [exact R4|].
+    pose proof (sq_scan c_squote (List.length r) r Xa [] [] (pre ++ [c_squote]) 0 1 (le_n _)) as Hs.
+    cbn [app rev is_nil negb] in Hs. cbv zeta in Hs. rewrite N.sub_0_r in Hs. exact Hs.
+  Qed.
+
+  Lemma push_lit_spec rs val :
+    push_lit rs val =
+    (mkRstate (rs_pending rs) (rs_prev rs) (rev_append (utf8_encode_all val) (rs_lit rs)) (rs_litlen rs + blen val),
+     PStr (rs_litlen rs) (rs_litlen rs + blen val)).
+  Proof. unfold push_lit. rewrite utf8_encode_all_len. reflexivity. Qed.
+
+  Lemma firstn_all_blen (l : list char) k : skipn_N k l = [] -> blen (firstn k l) = blen l.
+  Proof. intros H. pose proof (blen_firstn_skipn l k) as E. rewrite H in E. cbn [blen] in E. lia. Qed.
+
+  Definition lt_class'' (l : list char) (c : char) : Prop :=
+    forall s rs, OC text s rs -> c_rest (s_cur s) = l -> (List.length l < F)%nat ->
+    let '(ts, es, n, rs') := lexeme l (cur_byte s + bb) rs in
+    (1 <= n) /\ exists s', run false (lex_token F msep c) s = Done tt s' /\ StepOK text bb s ts es n rs' s'.
+
+
+
+  Lemma firstn_skipn_N {A} k : forall (l : list A), l = firstn k l ++ skipn_N k l.
+  Proof. induction k as [|k IH]; intros [|x l]; cbn [firstn skipn_N app]; try reflexivity. f_equal. apply IH. Qed.
+
+  Lemma ex_src_slice X a b textc : src_slice X a b = Some textc -> exec false (OSrcSlice a b) X = Done textc X.
+  Proof. intros H. unfold exec. rewrite H. reflexivity. Qed.
+
+  Lemma ex_addlit X v : exec false (OAddStringLiteral v) X = Done (w_litlen (s_buf X), w_litlen (s_buf X) + blen v) (st_addlit X v).
+  Proof. reflexivity. Qed.
+
+  (** a hex literal that decodes has no doubled quote inside *)
+  Lemma hex_ok_no_quote body x v : is_cc 120 88 x = true ->
+    parse_sas_hex_string (c_squote :: body ++ [c_squote; x]) = inl v -> ~ In c_squote body.
+  Proof.
+    intros Hx H Hin.
+    assert (Ax : is_ascii x = true).
+    { unfold is_cc in Hx. apply orb_true_iff in Hx. destruct Hx as [E|E]; apply N.eqb_eq in E; subst x; reflexivity. }
+    pose proof (HexString.parse_sas_hex_string_spec c_squote body c_squote x eq_refl eq_refl Ax) as Hs. cbv zeta in Hs. pose proof (eq_trans (eq_sym Hs) H) as H2. clear H Hs. rename H2 into H.
+    destruct (forallb is_ascii_hexdigit (filter (fun c => negb (c =? c_comma)) body)) eqn:Ef; [|discriminate].
+    rewrite forallb_forall in Ef. specialize (Ef c_squote). 
+    assert (Hf : In c_squote (filter (fun c => negb (c =? c_comma)) body)) by (apply filter_In; split; [exact Hin|reflexivity]).
+    specialize (Ef Hf). discriminate.
+  Qed.
+
+  Lemma class_squote r : lt_class'' (c_squote :: r) c_squote.
+  Proof.
+    intros s rs HOC Hr Hf.
+    destruct (squote_setup s rs r HOC Hr Hf) as (pre & Epre & Hsrc0 & Hlen0 & Hcb & Ma & Hloop & MR & Htext & Hunc & Hscan).
+    cbv zeta in *.
+    set (s0 := st_start s) in *. set (Xa := st_adv s0 c_squote r) in *.
+    set (R := st_sq c_squote Xa r [] [] (pre ++ [c_squote]) 0) in *.
+    set (ls := w_litlen (s_buf s0)) in *.
+    assert (Hls : ls = rs_litlen rs) by exact (oc_litlen _ _ _ HOC).
+    rewrite (lexeme_squote r (cur_byte s + bb) rs). cbv zeta. rewrite Hscan.
+    (* the run up to the end of the scan *)
+    assert (Hhead : forall (k : bool * N * N * N -> prog unit),
+               run false (lex_token F msep c_squote) s =
+               run false (x <- k (q_closed R, ls, ls + blen (q_ad R), blen (q_P R)) ;; set_pending_stat true) (q_st R) ->
+               True) by auto. clear Hhead.
+    assert (Hrun0 : run false (lex_token F msep c_squote) s =
+              run false ((if negb (q_closed R) then
+                            pl <- resolve_string_literal_payload ls (ls + blen (q_ad R)) (blen (q_P R)) None false ;;
+                            emit_token CH_DEFAULT T_StringLiteral pl ;; emit_error E_UnterminatedStringLiteral
+                          else
+                            s1 <- get ;;
+                            let text_end := Some (cur_byte s1 - 1) in
+                            ty <- resolve_string_literal_ending ;;
+                            '(pl, err) <-
+                              (if tt_eqb ty T_HexStringLiteral then
+                                 s2 <- get ;;
+                                 textc <- do (OSrcSlice (s_ct_byte s2) (cur_byte s2)) ;;
+                                 match parse_sas_hex_string textc with
+                                 | inl v => '(a, b) <- do (OAddStringLiteral v) ;; ret (Some (PStr a b), None)
+                                 | inr e => ret (None, Some e)
+                                 end
+                               else ret (None, None)) ;;
+                            pl' <- match pl with
+                                   | Some p => ret p
+                                   | None => resolve_string_literal_payload ls (ls + blen (q_ad R)) (blen (q_P R)) text_end false
+                                   end ;;
+                            emit_token CH_DEFAULT ty pl' ;;
+                            match err with Some e => emit_error e | None => ret tt end) ;; set_pending_stat true) (q_st R)).
+    { rewrite (default_to_squote s (oc_modes _ _ _ HOC) (oc_lines _ _ _ HOC)). fold s0.
+      rewrite run_bindP. unfold lex_single_quoted_str, assert_dbg, advance_, get. cbn [bindP do run]. rewrite ex_assert. cbn [run].
+      rewrite (ex_advance s0 c_squote r Hr). unfold ret. cbn [run bindP do]. fold Xa. rewrite ex_get. cbn [run].
+      change (w_litlen (s_buf (scrub Xa))) with ls. change (cur_byte (scrub Xa)) with (cur_byte Xa).
+      rewrite run_bindP. rewrite Hloop. rewrite run_bindP. reflexivity. }
+    destruct (q_closed R) eqn:Ecl; cbn [negb] in *.
+    - (* closed: suffix, optional hex decoding, payload *)
+      set (k := q_k R) in *. set (rest' := skipn_N (N.to_nat k) r) in *.
+      assert (Hafter : skipn_N (N.to_nat (1 + k)) (c_squote :: r) = rest').
+      { replace (N.to_nat (1 + k)) with (S (N.to_nat k)) by lia. reflexivity. }
+      rewrite Hafter. rewrite suffix_same.
+      destruct (suffix_model rest') as [ty extra] eqn:Esuf.
+      pose proof (MidQ_suffix _ _ _ _ _ _ MR) as ME. rewrite Esuf in ME. cbn [snd] in ME.
+      pose proof (run_ending (q_st R) rest' (mq_rest _ _ _ _ _ _ MR)) as Hend. rewrite Esuf in Hend. cbn [fst] in Hend.
+      set (Xe := st_suffix (q_st R) rest') in *.
+      set (total := 1 + k + extra).
+      assert (Hskip : skipn_N (N.to_nat total) (c_squote :: r) = skipn_N (N.to_nat extra) rest').
+      { subst total rest'. replace (N.to_nat (1 + k + extra)) with (S (N.to_nat k + N.to_nat extra)) by lia. cbn [skipn_N].
+        rewrite skipn_N_add. reflexivity. }
+      assert (Hcbq : cur_byte (q_st R) = blen (q_P R) + blen (q_pend R) + 1).
+      { rewrite (MidQ_cur_byte _ _ _ _ _ _ MR). rewrite Hlen0, Hsrc0. rewrite Htext at 1. rewrite !blen_app. cbn [blen]. change (utf8_len c_squote) with 1. fold rest'. lia. }
+      assert (Hpos : cur_byte Xe + bb = cur_byte s + bb + blen (firstn (N.to_nat total) (c_squote :: r))).
+      { rewrite (MidQ_cur_byte _ _ _ _ _ _ ME). rewrite <- Hskip.
+        pose proof (blen_firstn_skipn (c_squote :: r) (N.to_nat total)) as B1.
+        pose proof (cur_byte_rest text s (oc_inv _ _ _ HOC)) as B2. rewrite Hr in B2.
+        rewrite Hlen0, Hsrc0. lia. }
+      destruct (cfgq_fields _ _ (mq_cfg _ _ _ _ _ _ ME)) as (_ & _ & _ & C4 & _ & C6).
+      assert (Hps : forall Y ks pl, s_pstat Y = [rs_pending rs] ->
+                 run false (set_pending_stat true) (emit_errs (st_emit Y CH_DEFAULT ty pl) ks) =
+                 Done tt (st_pend (emit_errs (st_emit Y CH_DEFAULT ty pl) ks) true)).
+      { intros Y ks pl HY. unfold set_pending_stat. cbn [do run].
+        pose proof (noerr_eq _ _ (emit_errs_view ks (st_emit Y CH_DEFAULT ty pl))) as Ne.
+        rewrite (ex_set_pending _ true (rs_pending rs) []); [reflexivity|]. rewrite (ne_pstat _ _ Ne). exact HY. }
+      assert (HpsE : s_pstat Xe = [rs_pending rs]) by (rewrite C4; exact (oc_pstat _ _ _ HOC)).
+      (* the payload computed from the scan, used by every branch except a decoded hex literal *)
+      pose proof (run_resolve_payload s0 Xe (q_ad R) [] [] _ (q_P R) (q_pend R) ([c_squote] ++ rest') (Some (cur_byte (q_st R) - 1)) Hlen0 ME
+                    ltac:(rewrite Hsrc0; exact Htext) ltac:(rewrite Hcbq; lia)) as Hres. fold ls in Hres.
+      set (val := q_ad R ++ q_pend R) in *.
+      (* the reference reading's payload for the same cases *)
+      assert (Hplain : forall ks,
+                 run false (lex_token F msep c_squote) s =
+                   (if is_nil (q_ad R)
+                    then Done tt (st_pend (emit_errs (st_emit Xe CH_DEFAULT ty PNone) ks) true)
+                    else Done tt (st_pend (emit_errs (st_emit (st_addlit Xe (q_pend R)) CH_DEFAULT ty (PStr ls (ls + blen val))) ks) true)) ->
+                 let '(st', pl) := if negb (is_nil (q_ad R)) then push_lit rs val else (rs, PNone) in
+                 1 <= total /\ exists s', run false (lex_token F msep c_squote) s = Done tt s' /\
+                   StepOK text bb s [mkRtok ty CH_DEFAULT (cur_byte s + bb) pl]
+                     (map (fun e => mkRerr e (cur_byte s + bb + blen (firstn (N.to_nat total) (c_squote :: r)))) ks) total
+                     (mkRstate true (Some ty) (rs_lit st') (rs_litlen st')) s').
+      { intros ks Hrun. destruct (is_nil (q_ad R)) eqn:En; cbn [negb].
+        - split; [subst total; lia|]. eexists. split; [exact Hrun|].
+          pose proof (step_from_midq (lex_token F msep c_squote) tt s rs Xe [] total ty PNone ks true HOC
+                        ltac:(rewrite Hr, Hskip; destruct (q_ad R); [exact ME|discriminate]) Hrun) as Hst.
+          cbn [utf8_encode_all flat_map rev_append blen] in Hst. rewrite N.add_0_r in Hst. rewrite Hpos in Hst.
+          destruct rs as [pe pv li ll]. exact Hst.
+        - split; [subst total; lia|]. eexists. split; [exact Hrun|].
+          pose proof (MidQ_addlit _ _ _ _ _ _ (q_pend R) ME) as ME2. fold val in ME2.
+          pose proof (step_from_midq (lex_token F msep c_squote) tt s rs (st_addlit Xe (q_pend R)) val total ty
+                        (PStr ls (ls + blen val)) ks true HOC ltac:(rewrite Hr, Hskip; exact ME2) Hrun) as Hst.
+          change (cur_byte (st_addlit Xe (q_pend R))) with (cur_byte Xe) in Hst. rewrite Hpos in Hst.
+          rewrite ?utf8_encode_all_len. cbn [rs_lit rs_litlen]. rewrite <- Hls. rewrite <- Hls in Hst. exact Hst. }
+      (* the run, from the end of the scan to the choice of the payload *)
+      set (BIG := '(pl, err) <-
+                    (if tt_eqb ty T_HexStringLiteral then
+                       s2 <- get ;;
+                       textc <- do (OSrcSlice (s_ct_byte s2) (cur_byte s2)) ;;
+                       match parse_sas_hex_string textc with
+                       | inl v => '(a, b) <- do (OAddStringLiteral v) ;; ret (Some (PStr a b), None)
+                       | inr e => ret (None, Some e)
+                       end
+                     else ret (None, None)) ;;
+                  pl' <- match pl with
+                         | Some p => ret p
+                         | None => resolve_string_literal_payload ls (ls + blen (q_ad R)) (blen (q_P R)) (Some (cur_byte (q_st R) - 1)) false
+                         end ;;
+                  emit_token CH_DEFAULT ty pl' ;;
+                  match err with Some e => emit_error e | None => ret tt end).
+      assert (Hrun1 : run false (lex_token F msep c_squote) s =
+                match run false BIG Xe with
+                | Done _ s' => run false (set_pending_stat true) s'
+                | Panic site s' => Panic site s'
+                end).
+      { rewrite Hrun0. rewrite run_bindP. unfold get at 1. rewrite run_bindP. cbn [do run]. rewrite ex_get. cbn [run].
+        change (cur_byte (scrub (q_st R))) with (cur_byte (q_st R)).
+        rewrite run_bindP. rewrite Hend. reflexivity. }
+      assert (Hnohex : forall (t : prog unit) ks, (forall Y, run false t Y = Done tt (emit_errs Y ks)) ->
+                run false (pl' <- resolve_string_literal_payload ls (ls + blen (q_ad R)) (blen (q_P R)) (Some (cur_byte (q_st R) - 1)) false ;;
+                           emit_token CH_DEFAULT ty pl' ;; t) Xe =
+                (if is_nil (q_ad R)
+                 then Done tt (emit_errs (st_emit Xe CH_DEFAULT ty PNone) ks)
+                 else Done tt (emit_errs (st_emit (st_addlit Xe (q_pend R)) CH_DEFAULT ty (PStr ls (ls + blen val))) ks))).
+      { intros t ks Ht. rewrite run_bindP, Hres. unfold emit_token.
+        destruct (is_nil (q_ad R)); cbn [bindP do run]; rewrite ex_emit; cbn [run]; apply Ht. }
+      assert (Hfin : forall ks,
+                run false BIG Xe =
+                (if is_nil (q_ad R)
+                 then Done tt (emit_errs (st_emit Xe CH_DEFAULT ty PNone) ks)
+                 else Done tt (emit_errs (st_emit (st_addlit Xe (q_pend R)) CH_DEFAULT ty (PStr ls (ls + blen val))) ks)) ->
+                run false (lex_token F msep c_squote) s =
+                (if is_nil (q_ad R)
+                 then Done tt (st_pend (emit_errs (st_emit Xe CH_DEFAULT ty PNone) ks) true)
+                 else Done tt (st_pend (emit_errs (st_emit (st_addlit Xe (q_pend R)) CH_DEFAULT ty (PStr ls (ls + blen val))) ks) true))).
+      { intros ks Hb. rewrite Hrun1, Hb. destruct (is_nil (q_ad R)); apply Hps; exact HpsE. }
+      assert (T1 : forall e Y, run false (emit_error e) Y = Done tt (emit_errs Y [e])).
+      { intros e Y. unfold emit_error. cbn [do run]. rewrite ex_emit_error. reflexivity. }
+      assert (T0 : forall Y, run false (ret tt) Y = Done tt (emit_errs Y [])) by reflexivity.
+      destruct (tt_eqb ty T_HexStringLiteral) eqn:Ehex.
+      + (* x suffix: the token text is decoded *)
+        assert (Hsl : src_slice Xe (s_ct_byte (scrub Xe)) (cur_byte (scrub Xe)) = Some (firstn (N.to_nat total) (c_squote :: r))).
+        { change (s_ct_byte (scrub Xe)) with (s_ct_byte Xe). change (cur_byte (scrub Xe)) with (cur_byte Xe).
+          rewrite C6. change (s_ct_byte s0) with (cur_byte s). rewrite Hcb.
+          assert (Hce : cur_byte Xe = blen pre + blen (firstn (N.to_nat total) (c_squote :: r))) by lia.
+          rewrite Hce. apply (src_slice_spec Xe pre _ (skipn_N (N.to_nat total) (c_squote :: r))).
+          destruct (cfgq_src s0 Xe (mq_cfg _ _ _ _ _ _ ME)) as [Hs _]. rewrite Hs, Hsrc0, Epre. f_equal. apply firstn_skipn_N. }
+        assert (Hbig : run false BIG Xe =
+                  match parse_sas_hex_string (firstn (N.to_nat total) (c_squote :: r)) with
+                  | inl v => Done tt (emit_errs (st_emit (st_addlit Xe v) CH_DEFAULT ty (PStr (w_litlen (s_buf Xe)) (w_litlen (s_buf Xe) + blen v))) [])
+                  | inr e => run false (pl' <- resolve_string_literal_payload ls (ls + blen (q_ad R)) (blen (q_P R)) (Some (cur_byte (q_st R) - 1)) false ;;
+                                        emit_token CH_DEFAULT ty pl' ;; emit_error e) Xe
+                  end).
+        { unfold BIG. rewrite run_bindP. unfold get at 1. rewrite run_bindP. cbn [do run]. rewrite ex_get. cbn [run].
+          rewrite run_bindP. cbn [do run]. rewrite (ex_src_slice Xe _ _ _ Hsl). cbn [run].
+          destruct (parse_sas_hex_string (firstn (N.to_nat total) (c_squote :: r))) as [v|e].
+          - cbn [bindP do run]. rewrite ex_addlit. unfold ret, emit_token. cbn [run bindP do]. rewrite ex_emit. reflexivity.
+          - reflexivity. }
+        destruct (parse_sas_hex_string (firstn (N.to_nat total) (c_squote :: r))) as [v|e] eqn:Ep.
+        * (* decoded: there was no doubled quote *)
+          assert (Hnoesc : q_ad R = []).
+          { destruct (sq_P c_squote (List.length r) r Xa [] [] (pre ++ [c_squote]) 0 (le_n _)) as (W & HW & HWq). fold R in HW, HWq.
+            destruct HWq as [E|Hq]; [exact E|exfalso].
+            assert (Hx : exists x rest'', rest' = x :: rest'' /\ is_cc 120 88 x = true /\ extra = 1).
+            { unfold suffix_model in Esuf. destruct rest' as [|x rest'']; [inversion Esuf; subst; discriminate|].
+              exists x, rest''. split; [reflexivity|].
+              destruct (is_cc 98 66 x); [inversion Esuf; subst; discriminate|].
+              destruct (is_cc 100 68 x); [destruct (is_cc 116 84 _); inversion Esuf; subst; discriminate|].
+              destruct (is_cc 110 78 x); [inversion Esuf; subst; discriminate|].
+              destruct (is_cc 116 84 x); [inversion Esuf; subst; discriminate|].
+              destruct (is_cc 120 88 x); [inversion Esuf; subst; auto|inversion Esuf; subst; discriminate]. }
+            destruct Hx as (x & rest'' & Er' & Hxx & Eex).
+            assert (Hr_dec : r = (W ++ q_pend R ++ [c_squote]) ++ rest').
+            { rewrite HW in Htext. rewrite Epre in Htext. rewrite <- !app_assoc in Htext. apply app_inv_head in Htext.
+              cbn [app] in Htext. inversion Htext as [Ht]. rewrite <- !app_assoc. cbn [app]. reflexivity. }
+            assert (Hk : N.to_nat k = List.length (W ++ q_pend R ++ [c_squote])).
+            { assert (Hl1 : List.length rest' = (List.length r - N.to_nat k)%nat) by (unfold rest'; apply skipn_N_len).
+              assert (Hl2 : List.length r = (List.length (W ++ q_pend R ++ [c_squote]) + List.length rest')%nat)
+                by (rewrite Hr_dec at 1; apply app_length).
+              assert (Hl3 : (1 <= List.length rest')%nat) by (rewrite Er'; cbn [List.length]; lia).
+              lia. }
+            assert (Htok : firstn (N.to_nat total) (c_squote :: r) = c_squote :: (W ++ q_pend R) ++ [c_squote; x]).
+            { subst total. rewrite Eex. replace (N.to_nat (1 + k + 1)) with (S (N.to_nat k + 1)) by lia. cbn [firstn]. f_equal.
+              rewrite Hr_dec, Er'. rewrite Hk. rewrite firstn_app. rewrite firstn_all2 by lia.
+              replace (List.length (W ++ q_pend R ++ [c_squote]) + 1 - List.length (W ++ q_pend R ++ [c_squote]))%nat with 1%nat by lia.
+              cbn [firstn]. rewrite <- !app_assoc. reflexivity. }
+            rewrite Htok in Ep. apply (hex_ok_no_quote _ x v Hxx Ep). apply in_or_app. left. exact Hq. }
+          assert (Hlite : w_litlen (s_buf Xe) = ls).
+          { rewrite (mq_litlen _ _ _ _ _ _ ME). rewrite Hnoesc. cbn [blen]. lia. }
+          rewrite Hlite in Hbig.
+          assert (Hrun : run false (lex_token F msep c_squote) s =
+                    Done tt (st_pend (emit_errs (st_emit (st_addlit Xe v) CH_DEFAULT ty (PStr ls (ls + blen v))) []) true)).
+          { rewrite Hrun1, Hbig. apply (Hps (st_addlit Xe v) [] (PStr ls (ls + blen v))). exact HpsE. }
+          split; [subst total; lia|]. eexists. split; [exact Hrun|].
+          pose proof (MidQ_addlit _ _ _ _ _ _ v ME) as ME2. rewrite Hnoesc in ME2. cbn [app] in ME2.
+          pose proof (step_from_midq (lex_token F msep c_squote) tt s rs (st_addlit Xe v) v total ty
+                        (PStr ls (ls + blen v)) [] true HOC ltac:(rewrite Hr, Hskip; exact ME2) Hrun) as Hst.
+          cbn [map] in Hst. rewrite ?utf8_encode_all_len. cbn [rs_lit rs_litlen]. rewrite <- Hls. rewrite <- Hls in Hst. exact Hst.
+        * (* not hexadecimal: the scanned payload and the decoder's error *)
+          assert (Hbe : run false BIG Xe =
+                    (if is_nil (q_ad R)
+                     then Done tt (emit_errs (st_emit Xe CH_DEFAULT ty PNone) [e])
+                     else Done tt (emit_errs (st_emit (st_addlit Xe (q_pend R)) CH_DEFAULT ty (PStr ls (ls + blen val))) [e])))
+            by (rewrite Hbig; apply (Hnohex (emit_error e) [e] (T1 e))).
+          assert (HP := Hplain [e] (Hfin [e] Hbe)).
+          destruct (is_nil (q_ad R)); cbn [negb] in HP |- *; rewrite ?push_lit_spec in HP |- *; exact HP.
+      + (* any other suffix *)
+        assert (Hb0 : run false BIG Xe =
+                  (if is_nil (q_ad R)
+                   then Done tt (emit_errs (st_emit Xe CH_DEFAULT ty PNone) [])
+                   else Done tt (emit_errs (st_emit (st_addlit Xe (q_pend R)) CH_DEFAULT ty (PStr ls (ls + blen val))) []))).
+        { unfold BIG. rewrite run_bindP. unfold ret at 1. cbn [run]. apply (Hnohex (ret tt) [] T0). }
+        assert (HP := Hplain [] (Hfin [] Hb0)).
+        destruct (is_nil (q_ad R)); cbn [negb] in HP |- *; rewrite ?push_lit_spec in HP |- *; exact HP.
+    - (* no closing quote *)
+      specialize (Hunc eq_refl).
+      rewrite Hunc in MR, Htext. cbn [app] in Htext. rewrite app_nil_r in Htext.
+      assert (Hte : cur_byte (q_st R) = blen (q_P R) + blen (q_pend R)).
+      { rewrite (MidQ_cur_byte _ _ _ _ _ _ MR). cbn [blen]. rewrite Hlen0, Hsrc0, Htext, blen_app. lia. }
+      pose proof (run_resolve_payload s0 (q_st R) (q_ad R) [] [] [] (q_P R) (q_pend R) [] None Hlen0 MR
+                    ltac:(rewrite Hsrc0, app_nil_r; exact Htext) Hte) as Hres. fold ls in Hres.
+      set (val := q_ad R ++ q_pend R) in *.
+      assert (Hskip : skipn_N (N.to_nat (1 + q_k R)) (c_squote :: r) = []).
+      { replace (N.to_nat (1 + q_k R)) with (S (N.to_nat (q_k R))) by lia. exact Hunc. }
+      assert (Hpos : cur_byte (q_st R) + bb = cur_byte s + bb + blen (firstn (N.to_nat (1 + q_k R)) (c_squote :: r))).
+      { rewrite (firstn_all_blen _ _ Hskip). rewrite (MidQ_cur_byte _ _ _ _ _ _ MR). cbn [blen].
+        pose proof (cur_byte_rest text s (oc_inv _ _ _ HOC)) as B. rewrite Hr in B.
+        rewrite Hlen0, Hsrc0. cbn [blen] in *. lia. }
+      destruct (is_nil (q_ad R)) eqn:En; cbn [negb].
+      + (* no escape: no payload *)
+        assert (Hrun : run false (lex_token F msep c_squote) s =
+                  Done tt (st_pend (emit_errs (st_emit (q_st R) CH_DEFAULT T_StringLiteral PNone) [E_UnterminatedStringLiteral]) true)).
+        { rewrite Hrun0. rewrite !run_bindP, Hres. unfold emit_token, emit_error, set_pending_stat. cbn [bindP do run].
+          rewrite ex_emit. cbn [run]. rewrite ex_emit_error. cbn [run].
+          destruct (cfgq_fields _ _ (mq_cfg _ _ _ _ _ _ MR)) as (_ & _ & _ & C4 & _).
+          rewrite (ex_set_pending _ true (rs_pending rs) []); [reflexivity|]. change (s_pstat (q_st R) = [rs_pending rs]).
+          rewrite C4. exact (oc_pstat _ _ _ HOC). }
+        split; [lia|]. eexists. split; [exact Hrun|].
+        pose proof (step_from_midq (lex_token F msep c_squote) tt s rs (q_st R) [] (1 + q_k R) T_StringLiteral PNone
+                      [E_UnterminatedStringLiteral] true HOC ltac:(rewrite Hr, Hskip; destruct (q_ad R); [exact MR|discriminate]) Hrun) as Hst.
+        cbn [map utf8_encode_all flat_map rev_append blen] in Hst. rewrite N.add_0_r in Hst. rewrite Hpos in Hst.
+        destruct rs as [pe pv li ll]. exact Hst.
+      + (* escapes: the unquoted text is the payload *)
+        assert (Hrun : run false (lex_token F msep c_squote) s =
+                  Done tt (st_pend (emit_errs (st_emit (st_addlit (q_st R) (q_pend R)) CH_DEFAULT T_StringLiteral (PStr ls (ls + blen val)))
+                                              [E_UnterminatedStringLiteral]) true)).
+        { rewrite Hrun0. rewrite !run_bindP, Hres. unfold emit_token, emit_error, set_pending_stat. cbn [bindP do run].
+          rewrite ex_emit. cbn [run]. rewrite ex_emit_error. cbn [run].
+          destruct (cfgq_fields _ _ (mq_cfg _ _ _ _ _ _ MR)) as (_ & _ & _ & C4 & _).
+          rewrite (ex_set_pending _ true (rs_pending rs) []); [reflexivity|]. change (s_pstat (q_st R) = [rs_pending rs]).
+          rewrite C4. exact (oc_pstat _ _ _ HOC). }
+        split; [lia|]. eexists. split; [exact Hrun|].
+        pose proof (MidQ_addlit _ _ _ _ _ _ (q_pend R) MR) as MR2. fold val in MR2.
+        pose proof (step_from_midq (lex_token F msep c_squote) tt s rs (st_addlit (q_st R) (q_pend R)) val (1 + q_k R) T_StringLiteral
+                      (PStr ls (ls + blen val)) [E_UnterminatedStringLiteral] true HOC ltac:(rewrite Hr, Hskip; exact MR2) Hrun) as Hst.
+        cbn [map] in Hst. change (cur_byte (st_addlit (q_st R) (q_pend R))) with (cur_byte (q_st R)) in Hst. rewrite Hpos in Hst.
+        rewrite utf8_encode_all_len. cbn [rs_lit rs_litlen]. rewrite <- Hls. rewrite <- Hls in Hst. exact Hst.
   Qed.
 End Str.
